@@ -156,8 +156,12 @@ def laguerre_der(n, alpha, x):
     """
     # see wiki
     # d^k/dx^k L_n^alpha = (-1)^k L_(n-k)^(alpha+k)
+    if n == 0:
+        return np.zeros_like(x)
+
+    # d/dx L_n^(a) = - L_(n-1)^(a+1)
     k = 1
-    return laguerre(n-k, alpha+k, x)
+    return -laguerre(n-k, alpha+k, x)
 
 
 def laguerre_der_seq(ns, alpha, x):
@@ -180,6 +184,16 @@ def laguerre_der_seq(ns, alpha, x):
         d/dx of generalized laguerre polynomials evaluated at the given points
 
     """
+    # d/dx L_n^(a) = - L_(n-1)^(a+1), and the derivative of L_0 is zero
     k = 1
-    ns = [n-k for n in ns]
-    return laguerre_seq(ns, alpha+k, x)
+    ns = list(ns)
+    out = np.empty((len(ns), *x.shape), dtype=x.dtype)
+    start = 0
+    if ns[0] == 0:
+        out[0] = 0
+        start = 1
+
+    if start < len(ns):
+        out[start:] = -laguerre_seq([n-k for n in ns[start:]], alpha+k, x)
+
+    return out
